@@ -22,7 +22,6 @@ def askJson : Ask → Json
   | .x509CheckSig der alg msg sig =>
     Json.mkObj [("ask", "x509CheckSig"), ("der", hex der), ("alg", alg), ("msg", hex msg), ("sig", hex sig)]
   | .tpmHashes => Json.mkObj [("ask", "tpmHashes")]
-  | .sanView der => Json.mkObj [("ask", "sanView"), ("der", hex der)]
   | .safetyNet raw => Json.mkObj [("ask", "safetyNet"), ("raw", hex raw)]
   | .jwsHeaders raw => Json.mkObj [("ask", "jwsHeaders"), ("raw", hex raw)]
   | .jwsChain raw i pool => Json.mkObj [("ask", "jwsChain"), ("raw", hex raw), ("i", i), ("pool", pool)]
@@ -74,7 +73,6 @@ def parseResp (q : Ask) (j : Json) : Except String Resp := do
     return .bytes (← getHex j "bytes")
   | .jwsHeaders _ => return .nat (← getNat j "nat")
   | .sigVerify .. | .x509CheckSig .. => return .bool (← getBool j "bool")
-  | .sanView _ => return .san (← parseSans j)
   | .x509Parse _ => return .cert (← parseCert j)
   | .tpmHashes =>
     let hs ← (← getArr j "hashes").toList.mapM fun p => do
